@@ -11,6 +11,6 @@ func TestCheck(t *testing.T) {
 	defer e.Finish()
 	rec = e.Rec
 
-	rt.Rapid(e, "chains", 200_000, 2_000_000, genCase, Run)
+	rt.Rapid(e, "chains", 500_000, 4_000_000, genCase, Run)
 	rt.Enum(e, "catalogue-pairs", func(yield func(Case) bool) { enumCatalogue(e, yield) }, Run)
 }
